@@ -69,6 +69,9 @@ func workload(w *cbWorld, recoveryHeavy bool) {
 		w.check()
 	}
 	w.abandoned = drawAbandoned(rt)
+	if rapid.IntRange(0, 3).Draw(rt, "fallback-handler-can-break") == 0 {
+		w.fallbackBreaks = func() bool { return rapid.IntRange(0, 5).Draw(rt, "fallback-breaks") == 0 }
+	}
 	for i := 0; i < nops; i++ {
 		state := w.obs[len(w.obs)-1]
 		var kinds []string
@@ -165,7 +168,7 @@ func workload(w *cbWorld, recoveryHeavy bool) {
 		if q.outcome == "" && q.task != w.logPanicTask {
 			w.r.Fail("unanswered", "request %d reached neither the handler nor the fallback", q.id)
 		}
-		if q.outcome == "fallback" && q.rec.Status != w.fallbackStatus {
+		if q.outcome == "fallback" && !q.fallbackBroke && q.rec.Status != w.fallbackStatus {
 			w.r.Fail("fallback-status", "request %d answered by the fallback shows status %d", q.id, q.rec.Status)
 		}
 	}
